@@ -25,16 +25,26 @@
  *     the fcntl error (if any) is returned;
  *   - file_mutex is taken and released exactly once per call.
  *
- * VP_POSIXCLOSE 1 adds the OS-level view: POSIX record locks belong to the
- * process and are dropped when the process closes ANY descriptor of the file.
- * Asserted: a file that is held according to the table is still locked at the
- * OS level.  (Known weakness, inherited from LevelDB: see the finding.)
+ * OS-level view (VP_POSIXCLOSE 1, the default): POSIX record locks belong to
+ * the process and are dropped when the process closes ANY descriptor of the
+ * file (modelled in vp_close).  Asserted after every operation: a file that is
+ * held according to the table is still fcntl-locked, and a refused attempt on a
+ * held file opens and closes nothing.  (This failed on the tree before commit
+ * 4c3f022 -- finding F4: the refused attempt did open+close the file and so
+ * dropped the lock; the repaired code asks stat(2) first.)
+ *
+ * Assumption (part of the claim): stat(2) of a lock file this process holds
+ * locked does not fail (the file exists and was reachable when it was locked;
+ * transient ENOMEM/EIO are excluded).  If it did fail while open(2) succeeds,
+ * the repaired code would fall through to open/fstat/close and drop the lock
+ * as before.  stat(2) of a file that is not held may fail with any errno: that
+ * is not an error for ldb_lock_file.
  */
 #ifndef VP_K
 #define VP_K 3
 #endif
 #ifndef VP_POSIXCLOSE
-#define VP_POSIXCLOSE 0
+#define VP_POSIXCLOSE 1
 #endif
 #define VP_NFILES 3
 #define VP_MAXFD VP_K
@@ -134,7 +144,7 @@ vp_check_os(void) {
   int f;
   for (f = 0; f < 2; f++)
     VP_ASSERT(!vp_held[f] || vp_oslock[f],
-              "KF:C20-lockfile-close-drops-posix-lock a held lock file is still locked at the OS level");
+              "a lock file held by this process is still fcntl-locked at the OS level (no descriptor of it was closed)");
 #endif
 }
 
@@ -142,7 +152,7 @@ static void
 vp_op_lock(int k, int n) {
   ldb_filelock_t *lk = NULL;
   int f, rc, nopen0 = vp_nopen, washeld, wasunlocked;
-  int frees0 = vp_frees;
+  int frees0 = vp_frees, opens0 = vp_opens;
 
   f = (n == 2) ? 1 : 0;
   washeld = vp_held[f];
@@ -158,6 +168,8 @@ vp_op_lock(int k, int n) {
   vp_hard_errno = 0;
   vp_hard_call = 0;
   vp_fd_base = k;
+  vp_stat_reliable[0] = vp_held[0];
+  vp_stat_reliable[1] = vp_held[1];
   rc = ldb_lock_file(vp_lock_names[n], &lk);
 
   VP_ASSERT(!vp_mutex_held && vp_mutex_locks == vp_mutex_unlocks, "file_mutex released on every path");
@@ -166,6 +178,10 @@ vp_op_lock(int k, int n) {
     VP_ASSERT(rc != LDB_OK, "a second lock on a file that is held fails, whatever name is used");
     if (!vp_hard_fail)
       VP_ASSERT(rc == LDB_ENOLCK, "already held by this process: ENOLCK");
+#if VP_POSIXCLOSE
+    VP_ASSERT(vp_opens == opens0 && vp_fds[k].closes == 0,
+              "a refused attempt on a held file opens and closes no descriptor of it");
+#endif
   }
 
   if (rc == LDB_OK) {
@@ -250,6 +266,7 @@ harness(void) {
   VP_ASSUME(vp_file_dev[0] != vp_file_dev[1] || vp_file_ino[0] != vp_file_ino[1]);
 
   vp_no_einval = 1;
+  vp_stat_soft = 1;             /* a failing stat(2) only means "not known to be held" */
   vp_close_error_ignored = 1;   /* ldb_lock_file/ldb_unlock_file do not look at close(2)'s result */
   for (k = 0; k < VP_K; k++) {
     static const int script[4] = { VP_P0, VP_P1, VP_P2, VP_P3 };
